@@ -196,6 +196,12 @@ def main():
     counts, miss = gen_c15_dispatch.generate(REPO)
     vals.update(counts)      # C15_QUERY_TYPES, C15_MESSAGE_KINDS, C15_QUERY_ACTIONS
     missing += list(miss)
+    # C06: API / call sites of ConnectionLimits and PeerState, order inside on_connection_established,
+    # accept / reject shapes of the socket transports -> coq/gen/CapsTables.v (sibling script)
+    import gen_c06_caps
+    counts, miss = gen_c06_caps.generate(REPO)
+    vals.update(counts)      # C06_LIMITS_CALL_SITES, C06_TRANSPORT_SHAPES_OK
+    missing += list(miss)
     str_names = []
     for name, path, rx in STR_CONSTS:
         try:
